@@ -11,7 +11,7 @@ From Coq Require Import ZArith NArith List Bool Lia.
 From Stk Require Import Lib.U Gen.SrcCount Gen.SrcCore Gen.SrcLog R.Syntax R.Rt R.Mon R.Shape R.Eff R.Tags R.Mono R.C15Proofs R.Count.
 From Stk Require Import R.Nest R.C20Proofs R.Calls R.CallInv.
 From Stk Require Import R.Lin R.LinAct R.LinLaw R.LinStep R.LinEvs R.LinTail R.LinLive R.LinNin R.LinDel R.LinC05A R.LinC05Core R.LinC05B.
-From Stk Require Import R.C05Proofs R.LinBody R.LinC03Mon R.LinC03L R.LinC03K R.LinC03S.
+From Stk Require Import R.C05Proofs R.LinBody R.LinC03Mon R.LinC03L R.LinC03K R.LinC03S R.LinC03F.
 Import ListNotations.
 Local Open Scope Z_scope.
 
@@ -150,3 +150,18 @@ Proof. eexists. split; [vm_compute; reflexivity|]. repeat split; vm_compute; ref
 Example C03_selfcycle_refuted :
   exists t, exec DGlobal 3000 selfcycle_prog = Done t /\ ncl_b t = false /\ okF t = true /\ okK t = true /\ C03_ok t = false.
 Proof. eexists. split; [vm_compute; reflexivity|]. repeat split; vm_compute; reflexivity. Qed.
+
+(** The hypothesis [okF] reduced to a refcount fact (LinC03F.v): given ANY step-invariant [I] of the machine under
+    which a reference drop that frees the cell of a never has another [MDropRef a] pending behind it
+    ([no_self_free I]), C03 holds for every run without leaked container. *)
+Theorem C03_proved_of_inv (I : list mop -> st -> Prop) :
+  no_self_free I ->
+  (forall d p, I (map MTop p ++ [MEpilogue]) (init d)) ->
+  (forall k s k' s', I k s -> step k s = Some (k', s') -> I k' s') ->
+  forall (d : dkind) (p : list top) (fuel : nat) (t : list ev),
+  exec d fuel p = Done t -> no_container_leak t -> C03_ok t = true.
+Proof.
+  intros NSF I0 IS d p fuel t H NL. eapply C03_proved; eauto. eapply okF_of_inv; eauto.
+Qed.
+
+Print Assumptions C03_proved_of_inv.
